@@ -4,7 +4,8 @@ from props._wf_common import TRUSTED, ASSUME, DROPPED
 PROP, LEVEL, ENGINE = "C15", "other", "jxvc"
 DESIGN_REF = "DESIGN.md section 3 C15"
 TECHNIQUE = ("deductive, value-universal/shape-bounded: the traced rotate_orbs interpreted over Q(i)(x) equals the congruence C^T X C for general C; invariance of energy / force "
-             "bias / overlap under a simultaneous exact orthogonal rotation as ring identities")
+             "bias / overlap under a simultaneous exact orthogonal rotation as ring identities"
+             " Plus all-sizes obligations (kind proof): tensor normal forms with SYMBOLIC sizes of the same traced functions (engine B-T, DESIGN 2.3b).")
 EXPLANATION = ("all-sizes (proof): rot.congruence.allsizes.{chol,h1} - rotate_orbs is the congruence C^T X C for ALL norb and nchol (tensor normal form with symbolic sizes, DESIGN 2.3b). rot.congruence: for symbolic h1 (both spins independent), symbolic Cholesky vectors and a GENERAL symbolic matrix C, rotate_orbs returns C^T h1[s] C for each spin and "
                "C^T L_g C for each g (norb 2..4). rot.inv: with an exact rational orthogonal C, rotating the Hamiltonian with rotate_orbs and the trial orbitals and walkers with C^T "
                "leaves local energy and force bias unchanged and the overlap unchanged (factor 1), for rhf/uhf/noci; for the other kinds it is the corollary of C02/C03 (the spec is "
